@@ -237,6 +237,12 @@ def check(tier: str) -> Result:
                 ok = ok and wired
                 why += f"; weight-2 bit is the time-limit test: {is_limit(bits.get(2))}, weight-1 bit is not: {not is_limit(bits.get(1))}"
             res.add("C03.R5", site, fn, "switch table 00 MID / 01 termination / 10 truncation / 11 termination", ok, why)
+    # ---- R7: the wrappers are environments too: an auto-reset step keeps the terminal timestep's step type, reward and
+    # discount (replaced-field set = {observation}), and MultiToSingleWrapper aggregates the discount with max by default
+    from .common import borrow
+    n_wr = borrow(res, "c13", {"C13.R2": "C03.R7"}, only_if=lambda ob: "nothing else replace" in ob.construct or "replace" in ob.construct)
+    n_wr += borrow(res, "c14", {"C14.R2.R2": "C03.R7"}, only_if=lambda ob: "replace" in ob.construct)
+    n_wr += borrow(res, "c15", {"C15.R3": "C03.R7"}, envs=["MultiToSingleWrapper"])
     res.analysed = {"environments": len(analyses(tree)), "timestep_leaves": n_leaves,
                     "functions_in_closures": sum(len(e.reset_funcs) + len(e.step_funcs) for e in analyses(tree))}
     res.assumptions = ["lax.cond/switch select one of their branch results; jnp.zeros/ones fill semantics",
